@@ -511,10 +511,31 @@ def classify(model, ctx):
     ctx.nontrivial((n >= 2 and nonzero_rpy and generic_axis) or bool(omitted))
 
 
+_PREVIOUS_URDF = b"""<?xml version="1.0"?>
+<robot name="previous">
+  <link name="p0"/><link name="p1"/>
+  <joint name="previous_joint" type="revolute">
+    <parent link="p0"/><child link="p1"/>
+    <origin xyz="0.3 0 0.2" rpy="0 0 0"/><axis xyz="0 0 1"/>
+    <limit lower="-1.0" upper="1.0" effort="1" velocity="1"/>
+  </joint>
+</robot>
+"""
+
+
 def _run_generated(case, ctx):
     d = tempfile.mkdtemp(prefix="vf_c13_")
     try:
         path = os.path.join(d, "generated.urdf")
+        if case.get("rewrite"):
+            # the path held another robot a moment ago (a calibration written back, a generator reusing its output
+            # name) and that one was loaded too: what is loaded now is what the file says now
+            with open(path, "wb") as f:
+                f.write(_PREVIOUS_URDF)
+            prev = sut(lib(), path)
+            if prev is None or sut(lambda: prev.num_dof) != 1:
+                raise Violation("the one-joint robot written first at the same path was not loaded as such")
+            ctx.label("same path loaded before with another robot in it")
         with open(path, "wb") as f:
             f.write(render(case))
         model = FileModel(path)
@@ -688,6 +709,15 @@ def near_pi_axis_region(case, message):
     d = tempfile.mkdtemp(prefix="vf_c13_")
     try:
         path = os.path.join(d, "generated.urdf")
+        if case.get("rewrite"):
+            # the path held another robot a moment ago (a calibration written back, a generator reusing its output
+            # name) and that one was loaded too: what is loaded now is what the file says now
+            with open(path, "wb") as f:
+                f.write(_PREVIOUS_URDF)
+            prev = sut(lib(), path)
+            if prev is None or sut(lambda: prev.num_dof) != 1:
+                raise Violation("the one-joint robot written first at the same path was not loaded as such")
+            ctx.label("same path loaded before with another robot in it")
         with open(path, "wb") as f:
             f.write(render(case))
         angles = FileModel(path).moving_frame_angles()
@@ -814,6 +844,10 @@ def limits(jtype, spellings):
                 return None
             if how >= 2 and spellings and CONTINUOUS_LIMIT_WITHOUT_BOUNDS:
                 return dict(out, lower=None, upper=None)
+        if kind >= 8:                      # one bound exactly zero (a knee [0, hi] / an ankle [lo, 0]); "-0.0" too
+            z = -0.0 if (ev // 16) % 2 else 0.0
+            lo, hi = (z, bound(k2, x2)) if kind == 8 else (-bound(k1, x1), z)
+            return dict(out, lower=float(lo), upper=float(hi))
         if not spellings:
             kind = kind % 3
         if kind <= 1:                      # symmetric
@@ -831,8 +865,8 @@ def limits(jtype, spellings):
         else:                              # wide
             lo, hi = -(7.0 + 43.0 * x1), 7.0 + 43.0 * x1
         return dict(out, lower=float(lo), upper=float(hi))
-    return st.tuples(st.integers(0, 3), st.integers(0, 7), st.integers(0, 2 * nb), st.integers(0, 2 * nb),
-                     G.floats(0.0, 1.0), G.floats(0.0, 1.0), st.integers(0, 15)).map(build)
+    return st.tuples(st.integers(0, 3), st.integers(0, 9), st.integers(0, 2 * nb), st.integers(0, 2 * nb),
+                     G.floats(0.0, 1.0), G.floats(0.0, 1.0), st.integers(0, 31)).map(build)
 
 
 def link_specs(inertial_mode, visuals):
@@ -932,7 +966,8 @@ def urdfs(rpy_pool="plain", omit="never", spellings=False, layout="plain", max_m
             style = draw(_STYLES)
             if style != "std":
                 names = {"style": style, "seed": draw(_I1e6) if style == "random" else 0}
-        return {"root": root, "joints": joints, "names": names, "layout": lay, "qs": draw(s_q)}
+        return {"root": root, "joints": joints, "names": names, "layout": lay, "qs": draw(s_q),
+                "rewrite": draw(_I3) == 0}
 
     return build()
 
